@@ -1537,6 +1537,11 @@ def typearg_cases(jobs):
                 return base[e["o"]][tuple(real(a) for a in e["args"])]
             if e["k"] == "inst":
                 return base[e["c"]]
+            if e["k"] == "un":
+                import functools
+                import operator
+
+                return functools.reduce(operator.or_, [real(a) for a in e["args"]])
             if e["k"] == "metaof":
                 if e["m"] == "EXACT":
                     from ovld.types import Exactly
